@@ -50,8 +50,57 @@ def toKind : String → RuleKind
 
 structure GrammarEntry where
   gid : String
-  opt : PGrammar
-  raw : PGrammar
+  ng : NodeGrammar
+  pg : Option PGrammar := none
+  rawpg : Option PGrammar := none
+
+def toFlag : String → Flag
+  | "0" => .zero
+  | "1" => .one
+  | _ => .inh
+
+partial def toNode : Sexp → Node
+  | .list [.atom "str", h] => .str (unhex (atomStr h))
+  | .list [.atom "insens", h] => .insens (unhex (atomStr h))
+  | .list [.atom "range", a, b] => .range (Char.ofNat (atomNat a)) (Char.ofNat (atomNat b))
+  | .list [.atom "any"] => .any
+  | .list [.atom "soi"] => .soi
+  | .list [.atom "eoi"] => .eoi
+  | .list [.atom "newline"] => .newline
+  | .list [.atom "charby", n] => .charBy (atomStr n)
+  | .list (.atom "skipuntil" :: hs) => .skipUntil (hs.map fun h => unhex (atomStr h))
+  | .list [.atom "skipchars", n] => .skipChars (atomNat n)
+  | .list (.atom "seq" :: f :: items) => .seq (toFlag (atomStr f)) (items.map toNode)
+  | .list (.atom "choice" :: items) => .choice (items.map toNode)
+  | .list [.atom "opt", e] => .opt (toNode e)
+  | .list [.atom "rep", f, mn, mx, e] =>
+    .rep (toFlag (atomStr f)) (atomNat mn) (if atomStr mx = "-" then none else some (atomNat mx)) (toNode e)
+  | .list [.atom "atomicrepeat", e] => .atomicRepeat (toNode e)
+  | .list [.atom "pos", e] => .pos (toNode e)
+  | .list [.atom "neg", e] => .neg (toNode e)
+  | .list [.atom "push", e] => .push (toNode e)
+  | .list [.atom "peek"] => .peek
+  | .list [.atom "peekall"] => .peekAll
+  | .list [.atom "pop"] => .pop
+  | .list [.atom "popall"] => .popAll
+  | .list [.atom "drop"] => .drop
+  | .list [.atom "peekslice", a, b] =>
+    .peekSlice (atomInt a) (if atomStr b = "-" then none else some (atomInt b))
+  | .list [.atom "ref", r, f] => .ref (atomNat r) (toFlag (atomStr f))
+  | .list [.atom "array", k, e] => .array (atomNat k) (toNode e)
+  | .list [.atom "pair", a, b] => .pair (toNode a) (toNode b)
+  | .list [.atom "empty"] => .empty
+  | _ => .alwaysFail
+
+def toAtom : String → Atomicity
+  | "true" => .atomic
+  | "false" => .nonAtomic
+  | _ => .inherited
+
+def toEmit : String → Emission
+  | "Span" => .span
+  | "Expression" => .expression
+  | _ => .both
 
 def toGrammar : Sexp → Option GrammarEntry
   | .list (.atom "grammar" :: .atom gid :: rules) =>
@@ -59,9 +108,15 @@ def toGrammar : Sexp → Option GrammarEntry
       | .list [.atom "rule", .atom name, .atom kind, eo, er] =>
         some (name, toKind kind, toPExpr eo, toPExpr er)
       | _ => none
-    some { gid := gid,
-           opt := rs.map fun (n, k, eo, _) => { name := n, kind := k, expr := eo },
-           raw := rs.map fun (n, k, _, er) => { name := n, kind := k, expr := er } }
+    let opt : PGrammar := rs.map fun (n, k, eo, _) => { name := n, kind := k, expr := eo }
+    let raw : PGrammar := rs.map fun (n, k, _, er) => { name := n, kind := k, expr := er }
+    some { gid := gid, ng := gen opt, pg := some opt, rawpg := some raw }
+  | .list (.atom "nodegrammar" :: .atom gid :: .list [.atom "skipped", sk] :: rules) =>
+    let rs : List RuleDef := rules.filterMap fun
+      | .list [.atom "rule", .atom name, .atom atom, .atom emit, .atom boxed, body] =>
+        some { name := name, atom := toAtom atom, emit := toEmit emit, boxed := boxed == "true", body := toNode body }
+      | _ => none
+    some { gid := gid, ng := { rules := eoiDef :: rs, skipped := toNode sk } }
   | _ => none
 
 /-! ### printing -/
@@ -126,31 +181,29 @@ def fuelFor (g : NodeGrammar) (input : List Char) : Nat :=
   4 * (input.length + 2) * (g.rules.length + 2) + 40
 
 def runCase (ge : GrammarEntry) (rule entry form : String) (a b : Nat) (input : List Char) : String :=
-  let pg := ge.opt
-  let g := gen pg
-  match pg.indexOf rule with
+  let g := ge.ng
+  match g.rules.findIdx? (·.name = rule) with
   | none => "v=norule"
-  | some k =>
-    let r := k + 1
+  | some r =>
     let i := mkInp form a b input
     let fuel := fuelFor g input
-    let showM := fun (m : M) => " stk=" ++ showStack m.stk ++ " trk=" ++ showTracker g m.trk
+    let showM := fun (m : M) => "\tstk=" ++ showStack m.stk ++ "\ttrk=" ++ showTracker g m.trk
     match entry with
     | "parse_partial" =>
       match tryParsePartial g uniTable fuel r i with
       | .oof => "v=oof"
       | .fail m => "v=fail" ++ showM m
-      | .ok i' m v => "v=ok end=" ++ toString i'.pos ++ showM m ++ " tok=" ++ showTokens g (tokens g v)
+      | .ok i' m v => "v=ok\tend=" ++ toString i'.pos ++ showM m ++ "\ttok=" ++ showTokens g (tokens g v)
     | "check_partial" =>
       match tryCheckPartial g uniTable fuel r i with
       | .oof => "v=oof"
       | .fail m => "v=fail" ++ showM m
-      | .ok i' m _ => "v=ok end=" ++ toString i'.pos ++ showM m
+      | .ok i' m _ => "v=ok\tend=" ++ toString i'.pos ++ showM m
     | "parse" =>
       match tryParse g uniTable fuel r i with
       | .oof => "v=oof"
       | .fail m => "v=fail" ++ showM m
-      | .ok _ m v => "v=ok" ++ showM m ++ " tok=" ++ showTokens g (tokens g v)
+      | .ok _ m v => "v=ok" ++ showM m ++ "\ttok=" ++ showTokens g (tokens g v)
     | "check" =>
       match tryCheck g uniTable fuel r i with
       | .oof => "v=oof"
